@@ -53,14 +53,20 @@ impl<T> ResourceStorage<T> {
 
 	pub fn remove_and_add(&mut self, remove_test: impl FnMut(&T) -> bool) {
 		for (_, resource) in self.resources.drain_filter(remove_test) {
+			#[cfg(kira_verif)]
+			crate::verif::point("sto.removed");
 			self.unused_resource_producer
 				.push(resource)
 				.unwrap_or_else(|_| panic!("unused resource producer is full"));
 		}
+		#[cfg(kira_verif)]
+		crate::verif::point("sto.refill");
 		while let Ok((key, resource)) = self.new_resource_consumer.pop() {
 			self.resources
 				.insert_with_key(key, resource)
 				.expect("error inserting resource");
+			#[cfg(kira_verif)]
+			crate::verif::point("sto.refill");
 		}
 	}
 
@@ -130,11 +136,15 @@ impl<T> SelfReferentialResourceStorage<T> {
 
 	pub fn remove_and_add(&mut self, remove_test: impl FnMut(&T) -> bool) {
 		self.remove_unused(remove_test);
+		#[cfg(kira_verif)]
+		crate::verif::point("sto.refill");
 		while let Ok((key, resource)) = self.new_resource_consumer.pop() {
 			self.resources
 				.insert_with_key(key, resource)
 				.expect("error inserting resource");
 			self.keys.push(key);
+			#[cfg(kira_verif)]
+			crate::verif::point("sto.refill");
 		}
 	}
 
@@ -164,6 +174,8 @@ impl<T> SelfReferentialResourceStorage<T> {
 			let resource = &mut self.resources[key];
 			if remove_test(resource) {
 				let resource = self.resources.remove(key).unwrap();
+				#[cfg(kira_verif)]
+				crate::verif::point("sto.removed");
 				self.unused_resource_producer
 					.push(resource)
 					.unwrap_or_else(|_| panic!("unused resource producer is full"));
@@ -194,6 +206,8 @@ pub(crate) struct ResourceController<T> {
 impl<T> ResourceController<T> {
 	pub fn insert(&mut self, resource: T) -> Result<Key, ResourceLimitReached> {
 		let key = self.try_reserve()?;
+		#[cfg(kira_verif)]
+		crate::verif::point("ctl.reserved");
 		self.insert_with_key(key, resource);
 		Ok(key)
 	}
@@ -206,6 +220,8 @@ impl<T> ResourceController<T> {
 
 	pub fn insert_with_key(&mut self, key: Key, resource: T) {
 		self.remove_unused();
+		#[cfg(kira_verif)]
+		crate::verif::point("ctl.drained");
 		self.new_resource_producer
 			.get_mut()
 			.expect("new resource producer mutex poisoned")
